@@ -22,7 +22,13 @@ COMMON_ASSUME = [
     "exploration: absence of a violation in the explored cases is not a proof",
 ]
 
-HIST_RULES = {}
+from . import pure  # noqa: E402
+
+
+def custom(mod, assumptions=None):
+    return dict(kind="custom", run=mod.check, replay=mod.replay, setup=mod.setup,
+                assumptions=assumptions or COMMON_ASSUME)
+
 
 PROPS = {
     "C01": prog("hist", HIST3, q(4, 3000, 120), t(5, 40000, 200, 120), assumptions=COMMON_ASSUME),
@@ -34,5 +40,6 @@ PROPS = {
     "C07": prog("hist", HIST3, q(4, 3000, 120), t(5, 40000, 200, 120), assumptions=COMMON_ASSUME),
     "C12": prog("hist", HIST3, q(4, 3000, 100), t(5, 40000, 160, 120), assumptions=COMMON_ASSUME),
     "C15": prog("hist", ["base", "dbg"], q(5, 3000, 100), t(8, 40000, 120, 120), assumptions=COMMON_ASSUME),
+    "C19": custom(pure),
     "C18": prog("hist", HIST3, q(4, 3000, 100), t(5, 40000, 160, 120), assumptions=COMMON_ASSUME),
 }
